@@ -46,7 +46,7 @@ macro_rules! reg_enum {
 #[macro_export]
 macro_rules! w_all {
     ($m:ident ! ( $($pre:tt)* )) => {
-        $m!($($pre)* [0, 1, 2, 3, 7, 8, 16, 31, 32, 60, 63, 64, 65, 96, 127, 128, 129, 160, 190, 192, 250, 255, 256, 257, 320, 384, 512, 535])
+        $m!($($pre)* [0, 1, 2, 3, 7, 8, 16, 31, 32, 40, 60, 63, 64, 65, 96, 100, 127, 128, 129, 160, 190, 192, 200, 250, 255, 256, 257, 320, 384, 512, 535])
     };
 }
 
@@ -54,7 +54,7 @@ macro_rules! w_all {
 #[macro_export]
 macro_rules! w_all_wide {
     ($m:ident ! ( $($pre:tt)* )) => {
-        $m!($($pre)* [0, 1, 2, 3, 7, 8, 16, 31, 32, 60, 63, 64, 65, 96, 127, 128, 129, 160, 190, 192, 250, 255, 256, 257, 320, 384, 512, 535, 1024, 4096])
+        $m!($($pre)* [0, 1, 2, 3, 7, 8, 16, 31, 32, 40, 60, 63, 64, 65, 96, 100, 127, 128, 129, 160, 190, 192, 200, 250, 255, 256, 257, 320, 384, 512, 535, 1024, 4096])
     };
 }
 
